@@ -66,6 +66,8 @@ def rand_installation(gen: int, rng: random.Random):
     inst = console.Installation(gen, acs, names, version=(rng.random() < 0.3, rng.choice([["1.2.3"], ["1.0", "2.0"], ["9"]])))
     for a in acs:
         inst.ac_status[a.number] = rand_ac_status(inst, rng, a.number)
+        if inst.ac_status[a.number].error_code and rng.random() < 0.7:
+            inst.errors[a.number] = rng.choice(["ER: 05", "Fault Ü", "E"])       # an AC already in fault when the client connects
         if rng.random() < 0.5:
             t = inst.m["tstat"]
             inst.timers[a.number] = t.AcTimerStatusData(a.number, t.AcTimerState(rng.random() < 0.5, rng.randrange(24), rng.randrange(60)),
@@ -340,6 +342,16 @@ def check_c09(tier: str) -> int:
 
 
 # ================================================================================ C10
+def expect_init_errors(rig) -> None:
+    """ACs in fault when the client connects: the client asked for their error text during the handshake and the
+    console answered with what it holds"""
+    rig.client_err = {}
+    for a in rig.inst.acs:
+        if rig.inst.ac_status[a.number].error_code:
+            text = rig.inst.errors.get(a.number)
+            rig.client_err[a.number] = text.encode() if text else None
+
+
 def all_getters(rig) -> dict:
     out = {}
     for ac in rig.at.air_conditioners:
@@ -439,12 +451,25 @@ def check_c10(tier: str) -> int:
         inst = rand_installation(gen, rng)
         rig = console.ApiRig(inst, rng, record_sends=True)
         rig.client_err = {}
-        script = [("init",), ("connected",)] + [answer_stimulus(inst, k) for k in range(6)]
+        script = [("init",), ("connected",)] + [answer_stimulus(inst, k) for k in range(4)]
+        for a in inst.acs:       # the console answers the error-text requests the AC status answer provokes
+            if inst.ac_status[a.number].error_code:
+                script.append(("frame", 0xB0, inst.error_message(a.number)))
+        script += [answer_stimulus(inst, k) for k in (4, 5)]
         try:
             r, _ = rig.init()
             if r != ("ok", True):
                 continue
             ids = [a.number for a in inst.acs]
+            for a in inst.acs:
+                if inst.ac_status[a.number].error_code:
+                    text = inst.errors.get(a.number)
+                    rig.client_err[a.number] = text.encode() if text else None
+            ck.count()
+            dist[f"at{gen}_state_after_init"] += 1
+            if not compare(rig, {"gen": gen, "frame": "(none: state right after init; ACs in fault at connect: %s)"
+                                 % sorted(n for n in ids if inst.ac_status[n].error_code)}):
+                continue
             for _ in range(rng.choice([3, 8, 15])):
                 ck.count()
                 k = rng.randrange(5)
@@ -693,6 +718,7 @@ def check_c14(tier: str) -> int:
             r, _ = rig.init()
             if r != ("ok", True):
                 continue
+            expect_init_errors(rig)
 
             async def cb(ident):
                 calls.append(ident)
@@ -801,37 +827,76 @@ def check_c14(tier: str) -> int:
             rig.console.silent_from = 99
             auto_answer = rng.random() < 0.5
             hist = []
+            refresh_at = set()
+
+            seen_cids = {q[1] for q in rig.console.requests}
+
+            def tracked_step(step, connected):
+                """advance `step` ticks (no deadline strictly inside); a reconnection inside it (after an outage, or
+                forced by the heartbeat) brings a refresh whose answer is a group status: tell the model when"""
+                m0 = len(rig.console.requests)
+                begin = rig.now_ticks()
+                rig.advance(step)
+                cursor = begin
+                for q in rig.console.requests[m0:]:
+                    if q[2] == "zone_status" and q[1] not in seen_cids:
+                        seen_cids.add(q[1])
+                        r = int(round(q[0] * 1024))
+                        refresh_at.add(r - t0)
+                        ops.extend([3, r - cursor, 0, 2])
+                        cursor = r
+                        dist["poll_refreshes_seen"] += 1
+                if begin + step - cursor > 0 or cursor == begin:
+                    ops.extend([3, begin + step - cursor, 1 if connected else 0])
+
+            def advance_tracked(dt):
+                """advance deadline by deadline so that connectivity is sampled where the model needs it"""
+                end = rig.now_ticks() + dt
+                while True:
+                    res = common.run_model([[POLL] + ops])[0]
+                    dead = res[-2]
+                    now = rig.now_ticks() - t0
+                    if dead > end - t0:
+                        break
+                    tracked_step(dead - now, rig.sock_connected())
+                rest = end - rig.now_ticks()
+                if rest > 0:
+                    tracked_step(rest, rig.sock_connected())
+
+            def next_deadline():
+                return common.run_model([[POLL] + ops])[0][-2] + t0
+
             for _ in range(rng.choice([3, 6, 10])):
-                k = rng.randrange(10)
+                k = rng.randrange(11)
                 if k < 3:
                     # unsolicited group status (never exactly on the deadline)
                     rig.console.push(inst.zone_status_message())
                     rig.pump()
                     ops.append(2)
                     hist.append(("gs", rig.now_ticks() - t0))
+                elif k == 10:
+                    # an outage (possibly across one or more deadlines: nothing is requested then), the reconnection
+                    # with its refresh (whose answer is a group status), then whatever follows
+                    dur = rng.choice([20 * TICK + 7, 250 * TICK + 13, 310 * TICK + 5, 700 * TICK + 11])
+                    rig.net.accept = False
+                    cur = rig.net.current()
+                    if cur is not None:
+                        cur.transport.peer_reset()
+                    rig.pump()
+                    advance_tracked(dur)
+                    while next_deadline() - rig.now_ticks() <= 3 * TICK + 8:
+                        advance_tracked(5 * TICK)          # keep the reconnection clear of a deadline
+                    rig.net.accept = True
+                    advance_tracked(3 * TICK)
+                    hist.append(("outage", dur))
+                    dist["poll_outages"] += 1
                 else:
                     dt = rng.choice([10 * TICK, 100 * TICK, 299 * TICK, 299 * TICK + 1023, 300 * TICK + 1, 301 * TICK, 650 * TICK, 1000 * TICK])
-                    end = rig.now_ticks() + dt
-                    # advance deadline by deadline so that connectivity is sampled where the model needs it
-                    while True:
-                        res = common.run_model([[POLL] + ops])[0]
-                        dead = res[-2]
-                        now = rig.now_ticks() - t0
-                        if dead > end - t0:
-                            break
-                        step = dead - now
-                        connected = bool(rig.at and rig.net.current() is not None)
-                        rig.advance(step)
-                        ops += [3, step, 1 if connected else 0]
-                        if not auto_answer:
-                            pass
-                    rest = end - rig.now_ticks()
-                    if rest > 0:
-                        rig.advance(rest)
-                        ops += [3, rest, 1]
+                    advance_tracked(dt)
                     hist.append(("adv", dt))
                 # the console answered polls automatically: each answer is a group status (re-arms the deadline)
             got = [int(round(q[0] * 1024)) - t0 for q in rig.console.requests[mark:] if q[2] == "zone_status"]
+            got = [t for t in got if t not in refresh_at]
             # answers to the poll re-arm the deadline at the same instant: tell the model
             res = common.run_model([[POLL] + ops])[0]
             want = res[:-3]
